@@ -81,7 +81,8 @@ def main():
         # 4. our checks
         shutil.copytree(os.path.join(VERIF, "harness"), har, ignore=shutil.ignore_patterns("target"))
         ct = os.path.join(har, "Cargo.toml")
-        open(ct, "w").write(open(ct).read().replace('path = "/repo"', 'path = "%s"' % repo))
+        txt = open(ct).read().replace('path = "/repo"', 'path = "%s"' % repo)
+        open(ct, "w").write(txt)
         env2 = dict(env)
         env2["VERIF_HARNESS_DIR"] = har
         env2["VERIF_SCRATCH"] = "1"
